@@ -232,6 +232,10 @@ def main(prop, tier="quick", seed=0, only=None):
     n_viol = 0
     for part, rec in violations:
         key = rec["key"]
+        if key.startswith("harness:"):
+            inconclusive.append("%s: the harness itself failed (%s) - not a verdict about the code: inputs=%s %s"
+                                % (part["name"], key, json.dumps(rec["inputs"])[:300], rec["msg"][:800]))
+            continue
         kf = known_keys.get((prop, key))
         if kf is not None:
             if key not in known_hit:
